@@ -1280,6 +1280,15 @@ def _(e):
     return "sptensor.__init__", ttb.sptensor, (subs, np.array([[1.0], [2.0]]), e.shape), {}, None, {"how": "negative-subscript"}
 
 
+@row("sptensor.__init__:values-not-a-column", (2, 3))
+def _(e):
+    # several stored entries with their values as a 1-D vector (or a row): every operation reads the values as a column
+    e.shape = tuple(max(2, s_) for s_ in e.shape)
+    subs = np.array([[0] * e.N, [1] * e.N, [1] + [0] * (e.N - 1)])
+    vals = np.array([1.0, 2.0, 3.0])
+    return "sptensor.__init__", ttb.sptensor, (subs, vals if e.rng.random() < 0.6 else vals[None, :]), {"shape": e.shape}, None, {}
+
+
 @row("ktensor.update:repeated-mode", (2, 3))
 def _(e):
     X = e.holder("ktensor")
@@ -1528,7 +1537,11 @@ def run_case(case, ctx):
     if r.ok:
         from ..core import short
 
-        ctx.fail(op, "ACCEPTED", f"row '{case['row']}': the call returned {short(r.value, 160)} instead of raising (shape {e.shape})")
+        try:
+            shown = short(r.value, 160)
+        except Exception as ex_:  # noqa: BLE001  (an inconsistent object may not even print)
+            shown = f"<{type(r.value).__name__} whose repr raises {type(ex_).__name__}>"
+        ctx.fail(op, "ACCEPTED", f"row '{case['row']}': the call returned {shown} instead of raising (shape {e.shape})")
     else:
         ctx.tag("raised:" + type(r.exc).__name__)
     if recv is not None:
